@@ -7,7 +7,7 @@ from ..function import Function
 from ..number import Context
 from ..primitive import Primitive
 from .call_graph import CallGraph
-from .define_use import AssignDef, DefineUse, DefineUseAnalysis
+from .define_use import AssignDef, DefineUse, DefineUseAnalysis, PhiDef
 
 
 class _ImpureError(Exception):
@@ -66,9 +66,46 @@ class _Purity(DefaultVisitor):
     def _visit_indexed_assign(self, stmt: IndexedAssign, ctx: None):
         super()._visit_indexed_assign(stmt, ctx)
         d = self.def_use.find_def_from_use(stmt)
-        if isinstance(d, AssignDef) and isinstance(d.site, Argument | FuncDef):
-            # modifying an argument or a free variable
+        if not self._built_here(d, len(stmt.indices), set()):
+            # modifying an argument or a free variable, possibly through a
+            # local alias (`ys = xs`) or one of its rows (`row = xss[0]`)
             raise _ImpureError(f'Impure: Indexed assignment {stmt}')
+
+    def _built_here(self, d, depth: int, seen: set[int]) -> bool:
+        """Whether the list that `d` names, down to `depth` levels of nesting,
+        is storage this function created itself.  Anything not recognized counts
+        as somebody else's."""
+        if id(d) in seen:
+            return True   # a cycle through loop merges: decided by the other operands
+        seen.add(id(d))
+        if isinstance(d, PhiDef):
+            return all(self._built_here(self.def_use.defs[i], depth, seen) for i in (d.lhs, d.rhs))
+        match d.site:
+            case IndexedAssign():
+                # `xs[i] = e` keeps the storage of the previous definition; at depth > 1
+                # the stored value may itself be somebody else's list
+                return (
+                    d.prev is not None
+                    and self._built_here(self.def_use.defs[d.prev], depth, seen)
+                    and (depth <= 1 or self._fresh(d.site.expr, depth - 1, seen))
+                )
+            case Assign() if isinstance(d.site.target, NamedId):
+                return self._fresh(d.site.expr, depth, seen)
+            case _:
+                return False
+
+    def _fresh(self, e: Expr, depth: int, seen: set[int]) -> bool:
+        match e:
+            case Var():
+                return self._built_here(self.def_use.find_def_from_use(e), depth, seen)
+            case ListExpr():
+                return depth <= 1 or all(self._fresh(elt, depth - 1, seen) for elt in e.elts)
+            case ListComp():
+                return depth <= 1 or self._fresh(e.elt, depth - 1, seen)
+            case Empty() | Range1() | Range2() | Range3() | ListSlice():
+                return depth <= 1
+            case _:
+                return False
 
 
 class Purity:
